@@ -14,6 +14,7 @@ are modelled:
                                                                            (induction hypothesis for the recursive walker)
 The result of a run is the list of paths: (path condition, lens, events, return value)."""
 import re
+import time
 
 import z3
 
@@ -23,6 +24,9 @@ from mir import Obj, Unsupported, split_call, _split_top, norm_ty
 CF = ['Continue', 'Break']
 OPT = ['None', 'Some']
 MAX_PATHS = 3000000
+
+
+DEADLINE = [None]      # wall-clock cap for the current task (set by the caller; Unsupported when exceeded)
 
 
 class State:
@@ -308,10 +312,8 @@ class Exec:
 
     # ------------------------------------------------------------------------------------------------- execution
     def feasible(self, pc):
-        s = z3.Solver()
-        s.set('timeout', 20000)
-        s.add(*pc)
-        return s.check() != z3.unsat
+        import zutil
+        return zutil.check(pc, 24000)[0] != z3.unsat
 
     def run_fn(self, fn, args, st):
         """-> [(state, return value)]"""
@@ -325,6 +327,8 @@ class Exec:
             self.npaths += 1
             if self.npaths > MAX_PATHS:
                 raise Unsupported('path explosion')
+            if DEADLINE[0] is not None and time.time() > DEADLINE[0]:
+                raise Unsupported('time cap of the task reached during symbolic execution')
             if steps > 400:
                 raise Unsupported('too many blocks on one path in ' + fn.name)
             nxt = self.run_block(fn, bb, env, st)
@@ -670,6 +674,15 @@ class Exec:
                 raise Unsupported('contains on an unmodelled set')
             key = self.as_str(a[1])
             return self.fork_bool(z3.Or([key == e for e in els]) if els else z3.BoolVal(False), st)
+        if re.search(r'HashMap::<.*>::keys$', n):
+            pairs = self.coll(a[0], st)
+            if pairs is None:
+                raise Unsupported('keys() on an unmodelled map')
+            kobj = self.obj('keys#' + a[0].path, 'HashSet')
+            st.heap[('coll', kobj.path)] = [k for (k, _v) in pairs]
+            st.niter += 1
+            st.iters[st.niter] = 0
+            return [(st, ('hiter', st.niter, kobj))]
         if re.search(r'HashSet::<.*>::iter$', n):
             st.niter += 1
             st.iters[st.niter] = 0
